@@ -21,6 +21,7 @@ Conforms(c) ==
 
 PrevParked(c, k) == k > 1 /\ c.steps[k - 1].parked
 FiredUpTo(c, k) == \E j \in 1..Len(c.fired) : c.fired[j].step <= k
+OddBefore(c, k) == \E j \in 1..k : Rec[c.scn].steps[j].odd
 RmBefore(c, k)  == \E j \in 1..k : c.steps[j].op \in {"rmfile", "rmdir"}
 
 (* the clauses that hold whatever fails *)
@@ -36,7 +37,7 @@ Universal(c, k) ==
        (IF o.op = "add" /\ o.dP < 0 THEN {"persisted-decreased"} ELSE {}) \cup
        (IF o.op = "add" /\ o.dP + o.dE > o.n THEN {"count-invented"} ELSE {}) \cup
        (IF RotateLike(o.op) /\ ~o.parked /\ (~o.cur \/ ~o.today) THEN {"not-todays-file"} ELSE {}) \cup
-       (IF o.op = "read" /\ ~FiredUpTo(c, k) /\ ~RmBefore(c, k) /\ (o.rerr \/ o.rv # o.pv) THEN {"read-wrong"} ELSE {}))
+       (IF o.op = "read" /\ ~FiredUpTo(c, k) /\ ~RmBefore(c, k) /\ ~OddBefore(c, k) /\ (o.rerr \/ o.rv # o.pv) THEN {"read-wrong"} ELSE {}))
 
 (* the predicted class, where the documentation fixes one *)
 Class(c, k, pr) ==
@@ -66,7 +67,7 @@ ASSUME PrintT(<<"C05BAD", Bad>>)
 ASSUME PrintT(<<"C05DIV", Diverged>>)
 
 VARIABLE l
-TInit == l = 1 /\ scn = 1 /\ fplan = <<>> /\ pred = <<>>
+TInit == l = 1 /\ scn = 1 /\ fplan = <<>> /\ pred = <<>> /\ pm = NoMatcher
 TNext == l < Len(Trace) /\ l' = l + 1 /\ UNCHANGED vars
 TSpec == TInit /\ [][TNext]_<<l, vars>>
 (* every observed case is a behaviour the specification allows *)
